@@ -516,7 +516,6 @@ func runC02(ctx *Ctx) error {
 	return nil
 }
 
-
 // emptyListsAsLists: the value a default literal denotes, independent of gqlparser's nil-slice
 // representation of empty lists.
 func emptyListsAsLists(v interface{}) interface{} {
